@@ -189,9 +189,12 @@ pub fn exec_real(line: &str) -> String {
                 Some(f) => (f, true),
                 None => (*fmt, false),
             };
+            // `gtrig`: generalized RDF through the pretty TriG writer; outside the property's quantifier, so nothing
+            // here is an oracle failure: the text is compared with the model, the rest is observation (`x.`)
+            let generalized = fmt == "gtrig";
             let trig = match fmt {
                 "ttl" => false,
-                "trig" => true,
+                "trig" | "gtrig" => true,
                 _ => return "bad-op".into(),
             };
             let pretty = *pretty == "1";
@@ -210,11 +213,45 @@ pub fn exec_real(line: &str) -> String {
                 return format!("{} cfg=rejected", head);
             };
             let head = format!("{} cfg=ok", head);
+            if generalized {
+                return match catch(std::panic::AssertUnwindSafe(|| serialize(true, alt, cfg, &quads))) {
+                    Err(p) => format!("{} x.ser_panic={}", head, hex(&p)),
+                    Ok(Err(e)) => format!("{} x.ser_error={}", head, hex(&e)),
+                    Ok(Ok(txt)) => {
+                        let expected: BTreeSet<Q> = quads.iter().map(iso::norm_q).collect();
+                        let rt = match parse_with("gtrig", &txt) {
+                            Err(_) => "parse_error",
+                            Ok(g) => {
+                                if iso::isomorphic(&expected, &g.into_iter().collect()) {
+                                    "ok"
+                                } else {
+                                    "not_isomorphic"
+                                }
+                            }
+                        };
+                        format!("{} out={} x.rt={}", head, hex(&txt), rt)
+                    }
+                };
+            }
             match catch(std::panic::AssertUnwindSafe(|| serialize(trig, alt, cfg, &quads))) {
                 Err(p) => format!("{} FAIL.ser_panic={}", head, hex(&p)),
                 Ok(Err(e)) => format!("{} FAIL.ser_error={}", head, hex(&e)),
                 Ok(Ok(txt)) => {
-                    let rt = roundtrip(trig, pretty, &quads, &txt);
+                    let mut rt = roundtrip(trig, pretty, &quads, &txt);
+                    let turtle_ws = |c: char| matches!(c, ' ' | '\t' | '\r' | '\n');
+                    if rt.contains(" FAIL.") && !ind.chars().all(turtle_ws) {
+                        // observation: does the same request round-trip once every character of the indentation that is
+                        // not Turtle white space is replaced by a space?  (then the indentation alone explains the failure)
+                        let ind2: String = ind.chars().map(|c| if turtle_ws(c) { c } else { ' ' }).collect();
+                        let again = config(pretty, &ind2, &pm, alt)
+                            .and_then(|cfg2| catch(std::panic::AssertUnwindSafe(|| serialize(trig, alt, cfg2, &quads))).ok())
+                            .and_then(|r| r.ok())
+                            .map(|txt2| roundtrip(trig, pretty, &quads, &txt2));
+                        rt += match again {
+                            Some(r) if !r.contains(" FAIL.") => " x.reindent=ok",
+                            _ => " x.reindent=fails",
+                        };
+                    }
                     if pretty {
                         format!("{} out={}{}", head, hex(&txt), rt)
                     } else {
